@@ -64,6 +64,7 @@ pub struct AggregateState {
     pub count: i64,
     pub sum: i64,
     pub sum_float: f64,
+    pub sum_seen: bool,
     pub min_int: Option<i64>,
     pub max_int: Option<i64>,
     pub min_float: Option<f64>,
@@ -76,6 +77,7 @@ impl AggregateState {
             count: 0,
             sum: 0,
             sum_float: 0.0,
+            sum_seen: false,
             min_int: None,
             max_int: None,
             min_float: None,
@@ -100,8 +102,14 @@ impl AggregateState {
             AggregateFunction::Sum { column } => {
                 if let Some(val) = row.get(*column) {
                     match val {
-                        Value::Int(i) => self.sum += i,
-                        Value::Float(f) => self.sum_float += f,
+                        Value::Int(i) => {
+                            self.sum += i;
+                            self.sum_seen = true;
+                        }
+                        Value::Float(f) => {
+                            self.sum_float += f;
+                            self.sum_seen = true;
+                        }
                         _ => {}
                     }
                 }
@@ -154,7 +162,9 @@ impl AggregateState {
         match func {
             AggregateFunction::Count { .. } => Value::Int(self.count),
             AggregateFunction::Sum { .. } => {
-                if self.sum != 0 {
+                if !self.sum_seen {
+                    Value::Null
+                } else if self.sum != 0 {
                     Value::Int(self.sum)
                 } else if self.sum_float != 0.0 {
                     Value::Float(self.sum_float)
